@@ -76,23 +76,29 @@ Section C05.
           rewrite list_json_quiet; auto. }
       destruct Hwf as [Hwt Hkeys]. destruct (Hwt _ _ Hn) as [Hsrc Hm].
       (* the monitor's expectation is the model's decision *)
-      assert (Hexp : forall fp0, rec_of s t = Some (Hx fp0) ->
-                fpr_eqb (task_fp t (fs s)) fp0 && gens_exist matchb (fs s) t
-                  && (is_nil (t_status t) || status_ok (fs s) t) = up_formula matchb Hx s t).
-      { intros fp0 Hr. unfold up_formula. rewrite Hr. cbn [str_eq_opt]. rewrite hx_eqb.
-        destruct (fpr_eqb _ _), (gens_exist _ _ _), (is_nil _ || status_ok _ _); reflexivity. }
+      assert (Hexp : forall st fp0, rec_of st t = Some (Hx fp0) ->
+                fpr_eqb (task_fp t (fs st)) fp0 && gens_exist matchb (fs st) t
+                  && (is_nil (t_status t) || status_ok (fs st) t) = up_formula matchb Hx st t).
+      { intros st fp0 Hr. unfold up_formula. rewrite Hr. cbn [str_eq_opt]. rewrite hx_eqb.
+        destruct (fpr_eqb (task_fp t (fs st)) fp0), (gens_exist matchb (fs st) t),
+                 (is_nil (t_status t) || status_ok (fs st) t); reflexivity. }
       assert (Hrun : forall mm, (mm = Run \/ mm = Force \/ mm = Dry) -> m = mm ->
                 run_task matchb H Hx v t0 s mm tid t oc = (s', x) -> ok = true /\ Inv05 p s' g').
       { intros mm Hmm -> Er.
+        change (run_task matchb H Hx v t0 s mm tid t oc)
+          with (run_task_core matchb H Hx v t0 (pre_state mm t0 t s) mm tid t oc) in Er.
+        cbn [fst] in Ec. change (deps_fs mm t0 t (fs s)) with (fs (pre_state mm t0 t s)) in Ec.
+        assert (Hinv0 : Inv05 p (pre_state mm t0 t s) g) by (eapply inv05_same_store; [apply same_store_pre | exact Hinv]).
+        clear Hinv. set (s0 := pre_state mm t0 t s) in *.
         pose proof (run_task_summary matchb H Hx v Hsafe Hfp Hts Hdfg _ _ _ _ _ _ _ _ Hsrc Hm Hmm Er) as Sm.
-        pose proof (Hinv _ _ Hn) as Hi.
+        pose proof (Hinv0 _ _ Hn) as Hi.
         destruct Sm as [Hnf Hup -> ->|Hd Hup Hss Hrd|Hnd Hup Hr Hnone Hoth|Hnd Hup -> Hrec Hoth].
         - (* skipped *)
           assert (Hat : is_attempt mm RSkipped = false) by (destruct mm; reflexivity).
           rewrite Hat in Ec.
           destruct Hmm as [->|[->| ->]]; try congruence.
           + destruct (lookup_nat tid g) as [[fp0 [|]]|] eqn:El.
-            * rewrite (Hexp _ Hi), Hup in Ec. inversion Ec; subst; auto.
+            * rewrite (Hexp s0 _ Hi), Hup in Ec. inversion Ec; subst; auto.
             * inversion Ec; subst; auto.
             * inversion Ec; subst; auto.
           + inversion Ec; subst; auto.
@@ -101,12 +107,12 @@ Section C05.
           { destruct Hmm as [->|[->| ->]]; try congruence; destruct Hr as [->|[->| ->]]; reflexivity. }
           assert (Hok : is_ok x = false) by (destruct Hr as [->|[->| ->]]; reflexivity).
           rewrite Hat, Hok in Ec.
-          assert (Hinv' : Inv05 p s' ((tid, (task_fp t (fs s), false)) :: g)).
+          assert (Hinv' : Inv05 p s' ((tid, (task_fp t (fs s0), false)) :: g)).
           { eapply inv05_attempt; eauto. split; auto. }
           destruct Hmm as [->|[->| ->]]; try congruence.
           + destruct Hup as [Hup|Hup]; [discriminate|].
             destruct (lookup_nat tid g) as [[fp0 [|]]|] eqn:El.
-            * rewrite (Hexp _ Hi), Hup in Ec.
+            * rewrite (Hexp s0 _ Hi), Hup in Ec.
               destruct Hr as [->|[->| ->]]; inversion Ec; subst; auto.
             * inversion Ec; subst; auto.
             * inversion Ec; subst; auto.
@@ -114,14 +120,14 @@ Section C05.
             rewrite Hsk in Ec. inversion Ec; subst; auto.
         - assert (Hat : is_attempt mm ROk = true) by (destruct Hmm as [->|[->| ->]]; try congruence; reflexivity).
           rewrite Hat in Ec. cbn [is_ok] in Ec.
-          assert (Hrec' : rec_of s' t = Some (Hx (task_fp t (fs s)))).
+          assert (Hrec' : rec_of s' t = Some (Hx (task_fp t (fs s0)))).
           { destruct Hrec as [Hrec|[_ [Hf _]]]; auto. congruence. }
-          assert (Hinv' : Inv05 p s' ((tid, (task_fp t (fs s), true)) :: g)).
+          assert (Hinv' : Inv05 p s' ((tid, (task_fp t (fs s0), true)) :: g)).
           { eapply inv05_attempt; eauto. split; auto. }
           destruct Hmm as [->|[->| ->]]; try congruence.
           + destruct Hup as [Hup|Hup]; [discriminate|].
             destruct (lookup_nat tid g) as [[fp0 [|]]|] eqn:El.
-            * rewrite (Hexp _ Hi), Hup in Ec. inversion Ec; subst; auto.
+            * rewrite (Hexp s0 _ Hi), Hup in Ec. inversion Ec; subst; auto.
             * inversion Ec; subst; auto.
             * inversion Ec; subst; auto.
           + cbn in Ec. inversion Ec; subst; auto. }
